@@ -437,6 +437,19 @@ def run(scenario, world):
                      start=op['start'], duration=op['duration'])
             if not is_exc(r):
                 world.probe('user_changed_regimen_after_handover')
+        elif o == 'bad_sample':
+            # an invalid request (negative seed) raises; nothing of it may
+            # show in later samples (they are compared with a fresh stack)
+            kind = op['on']
+            target = main.target(kind)
+            if target is None:
+                continue
+            args = scenario['args'][op['args'] % len(scenario['args'])]
+            res = call(draw, target, kind, dict(args, seed=-1))
+            world.probe('invalid_sample_raised' if is_exc(res)
+                        else 'invalid_sample_accepted')
+            triples.append((prev, 'bad_sample', kind))
+            prev = 'bad_sample'
         elif o == 'sample':
             kind = op['on']
             target = main.target(kind)
@@ -733,6 +746,9 @@ def generate(rng, index, tier):
             ops.append({'op': 'sample', 'on': rng.choice(kinds),
                         'args': rng.randint(0, 2),
                         'n_samples': rng.randint(1, 6)})
+            if rng.random() < 0.1:
+                ops.append({'op': 'bad_sample', 'on': ops[-1]['on'],
+                            'args': rng.randint(0, 2)})
     return {'property': PROP, 'recipes': recipes, 'args': args, 'ops': ops,
             'profile': {'avoid_known': avoid}}
 
